@@ -59,7 +59,7 @@ def reset_capacity():
 
 
 def run_incremental(scn, sched_tape, stop_factory=None, step_cap=None, lenient=False,
-                    force_early=None):
+                    force_early=None, force_capacity=None):
     """Run every request of the scenario concurrently on one SimLoop.
 
     stop_factory(sim, tape, i, rs, req, rr) -> Stop object or None (C06).
@@ -68,6 +68,8 @@ def run_incremental(scn, sched_tape, stop_factory=None, step_cap=None, lenient=F
     knobs = Knobs(sched_tape)
     if force_early is not None:
         knobs.early = force_early
+    if force_capacity is not None:
+        knobs.capacity = force_capacity
     al = alloc.SimAllocator(knobs.alloc, sched_tape)
     reqs = [Request(sim, i, scn.world, rs.planner, root=rs.root)
             for i, rs in enumerate(scn.requests)]
